@@ -238,6 +238,27 @@ def jobs_expert(prop, tier):
     return j
 
 
+def args_job(prec, routine, pairs, i=0, k=1):
+    return {'engine': 'mcargs/mcargs.c', 'variant': 'q', 'prec': prec,
+            'args': ['--prop', 'C15', '--routine', routine, '--pairs', str(pairs), '--slice', '%d/%d' % (i, k)]}
+
+
+def jobs_C15(tier):
+    j = []
+    if tier == 'quick':
+        for p in 'sdcz':
+            j.append(args_job(p, 'all', 0))
+        for i in range(4):
+            j.append(args_job('d', 'gssv', 1, i, 4)); j.append(args_job('d', 'gssvx', 1, i, 4))
+        for r in ('gstrs', 'gsrfs', 'gscon', 'gsequ', 'trsv', 'gemv'):
+            j.append(args_job('d', r, 1))
+    else:
+        for p in 'sdcz':
+            for i in range(16):
+                j.append(args_job(p, 'all', 1, i, 16))
+    return j
+
+
 RULE_X = ('exhaustive enumeration: every structurally nonsingular 0/1 pattern of the stated size with generic values x 6 scalings (none, rows, columns, both by powers of two, '
           'uniformly huge, uniformly tiny: they force every equed outcome) x trans {N,T,C} x storage {NC,NR} x fact {DOFACT, EQUILIBRATE, FACTORED after DOFACT, FACTORED after EQUILIBRATE} '
           'x nrhs x leading dimensions (tight and padded, ldb != ldx) x thresholds x threads, plus a graded family n=4..6 with prescribed singular values (one decade apart up to 1e13 / 1e4); '
@@ -297,6 +318,14 @@ SPECS = {
             'assumptions': ['berr compared with the componentwise backward error of the returned X on the equilibrated system (abs. slack 4(n+2)eps + 2%)',
                             'exact solution = quad-precision (113 bit) solve of the caller\'s original system; ferr claim only for cond < 0.1/eps (original and equilibrated), slack 40 as in TESTING/p?drive.c'],
             'deadline': {'quick': 600, 'thorough': 3 * 3600}},
+    'C15': {'jobs': jobs_C15, 'level': 'exploration',
+            'rule': 'exhaustive enumeration: 8 routines x 20 legal baselines (4x4 matrix, real factors) x every single documented-precondition violation (1258) and every ordered pair of two '
+                    'different violations (99218); a case is one illegal call judged for info/xerbla position and name, bytewise no-side-effect on everything reachable from the arguments, heap balance; '
+                    'distinct_nontrivial counts distinct (call, outcome) hashes',
+            'assumptions': ['positions = numbering of the header comments (= C prototype order)', 'NULL pointers / NULL Store are not called (undefined before validation)',
+                            'judged only for the preconditions the statement lists: violations of the TYPE of the factors L/U and of the row count of B/X are executed but not judged (ignore_sigs)'],
+            'ignore_sigs': [r'^C15:[a-z]+:[a-z-]+:[LU]-(stype|dtype|mtype)$', r'^C15:crash:[a-z]+:[LU]-(stype|dtype|mtype)$', r'^C15:[a-z]+:[a-z-]+(:[a-z]+)?:[BX]-nrow$'],
+            'deadline': {'quick': 300, 'thorough': 1800}},
     'C09': {'jobs': jobs_C09, 'level': 'exploration', 'rule': RULE_SEQ,
             'assumptions': ['checker wellformed() implements the statement literally; n <= 12'],
             'deadline': {'quick': 600, 'thorough': 3 * 3600}},
